@@ -767,3 +767,33 @@ func Symbols(t *Term, into map[string]bool, seen map[int]bool) {
 		Symbols(a, into, seen)
 	}
 }
+
+// Subst replaces every occurrence of the constant `from` in t by `to`.
+func Subst(t, from, to *Term, memo map[int]*Term) *Term {
+	if t == from {
+		return to
+	}
+	if len(t.Args) == 0 {
+		return t
+	}
+	if r, ok := memo[t.id]; ok {
+		return r
+	}
+	changed := false
+	args := make([]*Term, len(t.Args))
+	for i, a := range t.Args {
+		args[i] = Subst(a, from, to, memo)
+		if args[i] != a {
+			changed = true
+		}
+	}
+	r := t
+	if changed {
+		c := *t
+		c.Args = args
+		c.id = 0
+		r = TS.intern(&c)
+	}
+	memo[t.id] = r
+	return r
+}
